@@ -21,6 +21,25 @@ The generator's own description of each response and h11 (client role) are cross
 the reference reader on the complete message; a disagreement there is a harness problem and
 reported INCONCLUSIVE, never as a violation.
 
+Scenario families on top of the truncation enumeration (each judged only as far as the statement goes):
+  two-split  the complete message cut in two at every offset (each framing byte alone at a segment edge);
+  tx         the request body producer's Deferred is still pending / already .called but its chain waits on
+             an unfired Deferred / fired and pause()d while the response arrives, released before, in the
+             middle, after the loss or never: the request Deferred must fire exactly once; if it fires with a
+             response all body rules apply; which failure it gets otherwise is not judged;
+  reentry    the application calls abort() between segments or from the response callback, and
+             loseConnection / stopProducing / pauseProducing+resumeProducing / abort() from inside the body
+             protocol's dataReceived or connectionLost: same oracle on the bytes delivered;
+  raises     the body protocol's dataReceived / connectionLost (or the producer's stopProducing) raise an
+             Exception or a BaseException-only class: exactly-once firing, connectionLost at most once and
+             nothing after it are judged, the rest is counted (the statement is silent on broken consumers);
+  pair       a second request on the same protocol object after a complete first response (persistent or
+             closing connection; issued after dataReceived returned or from inside the first body protocol's
+             connectionLost(ResponseDone)), the second response truncated at random points: full oracle on
+             the second exchange (a documented RequestNotSent refusal is accepted as the failure);
+  edges      Content-Length 10^19..10^30, header lines of 8-16 KB, 60-150 header lines, chunk-size lines of
+             1000-1023 bytes (the decoder's limit is 1024).
+
 Guards: only clear-cut malformations are generated (non-numeric status code, bad version token,
 conflicting / non-numeric Content-Length, header line without colon, bad chunk size, chunk data not
 followed by CRLF); the failure type for a truncated body is not prescribed beyond "not ResponseDone,
@@ -42,12 +61,15 @@ RULE = ("responses from a structured generator (GET/HEAD/POST requests, persiste
         "non-trivial = k > 0.")
 ASSUMPTIONS = ["trusted base: the lenient reference response reader in this module, cross-checked per response with the generator's description and with h11 (client role)",
                "the in-memory transport models a TCP transport: honours pauseProducing, delivers nothing after loseConnection, connectionLost exactly once",
-               "request bodies are small and written synchronously, so the request is fully sent before the first response byte (the TRANSMITTING states are not part of the statement)"]
+               "while the request is still being transmitted (family tx) only exactly-once firing and, for a delivered response, the body rules are judged"]
 SHARDS = {"quick": 4, "thorough": 16}
 FLOORS = {"runs": 20000, "truncation_points": 5000, "deferred_response": 5000, "deferred_response_failed": 2000, "deferred_never_received": 200,
           "body_lost_ResponseDone": 1500, "body_lost_PotentialDataLoss": 500, "body_lost_truncated": 1500, "body_bytes_compared": 20000,
           "interim_skipped": 500, "policy_immediate": 1000, "policy_after-return": 1000, "policy_ignore-pause": 500, "policy_after-loss": 1000,
-          "h11_crosschecks": 50, "responses_with_framing_headers_on_interim": 20, "malformed_head_runs": 300, "head_or_nobody_runs": 1000}
+          "h11_crosschecks": 50, "responses_with_framing_headers_on_interim": 20, "malformed_head_runs": 300, "head_or_nobody_runs": 1000,
+          "family_two-split": 5000, "family_tx": 1000, "tx_called-waiting": 150, "tx_fired-paused": 150, "tx_unfired": 150,
+          "family_reentry": 1000, "reentry_abort": 200, "reentry_pause-resume": 50, "family_raises": 500, "raise_runs": 300,
+          "family_pair": 500, "second_exchanges_checked": 300, "edge_responses": 8}
 READY = True
 
 NOBODY_CODES = (204, 304)
@@ -181,7 +203,7 @@ def _rand_body(rng):
     return bytes(b)
 
 
-def _chunked_encode(rng, body, malformed):
+def _chunked_encode(rng, body, malformed, long_line=False):
     out = bytearray()
     pos = 0
     sizes = []
@@ -197,6 +219,9 @@ def _chunked_encode(rng, body, malformed):
         if rng.random() < 0.2:
             hx = "0" * rng.randint(1, 3) + hx
         ext = rng.choice(["", "", "", ";ext", ";a=b", ';q="x y"', ";a=b;c=d"])
+        if long_line and i == 0:
+            # chunk-size line of 1000..1023 bytes: just below the decoder's 1024-byte limit
+            ext = ";x=" + "y" * (rng.choice([1000, 1022, 1023, 1023]) - len(hx) - 3)
         if bad_at == i and malformed == "bad-chunk-size":
             out += rng.choice([b"0x5", b"-1", b"5g", b"", b" 5", b"+5", b"5 "]) + b"\r\n"
             return bytes(out), bytes(good), False
@@ -237,6 +262,15 @@ def gen_response(rng):
             framing = "chunked"
             if nobody:
                 method, code, nobody = b"GET", 200, False
+    edge = None
+    if malformed is None and rng.random() < 0.07:
+        edge = rng.choice(["huge-content-length", "long-header-line", "many-headers", "long-chunk-size-line"])
+        if edge in ("huge-content-length", "long-chunk-size-line"):
+            if nobody:
+                method, code, nobody = b"GET", 200, False
+            framing = "cl" if edge == "huge-content-length" else "chunked"
+            if edge == "long-chunk-size-line" and not body:
+                body = b"payload"
     eol = b"\r\n" if rng.random() < 0.8 else b"\n"
     version = b"HTTP/1.1" if rng.random() < 0.8 else rng.choice([b"HTTP/1.0", b"HTTP/1.1", b"HTTP/2.0", b"ICY/1.0"])
     reason = rng.choice([b" OK", b" OK", b"", b" ", b" Not Found", b" Multi Word Reason ", b" \xe9"])
@@ -282,11 +316,17 @@ def gen_response(rng):
             hdrs.append(name + b":  " + val + b"  ")
         else:
             hdrs.append(name + b": " + val)
+    if edge == "long-header-line":
+        hdrs.append(b"X-Long: " + b"v" * rng.choice([8000, 15000, 16000, 16300]))
+    elif edge == "many-headers":
+        hdrs += [b"X-N%d: %d" % (i, i) for i in range(rng.choice([60, 150]))]
     n = len(body)
     fr = []
     if framing == "cl":
         st = rng.random()
-        if malformed == "conflicting-cl":
+        if edge == "huge-content-length":
+            fr = [b"Content-Length: %d" % rng.choice([10 ** 19, 2 ** 64 + n, 10 ** 30])]
+        elif malformed == "conflicting-cl":
             fr = rng.choice([[b"Content-Length: %d" % n, b"Content-Length: %d" % (n + 1)], [b"Content-Length: %d, %d" % (n, n + 2)]])
         elif malformed == "non-numeric-cl":
             fr = [b"Content-Length: " + rng.choice([b"12a", b"-5", b"+5", b"abc", b"1.0", b"0x10", b""])]
@@ -326,21 +366,23 @@ def gen_response(rng):
     elif framing == "cl":
         raw += body
         exp_body = body
+        if edge == "huge-content-length":
+            complete_state = "incomplete"
     elif framing == "chunked":
-        enc, good, ok = _chunked_encode(rng, body, malformed)
+        enc, good, ok = _chunked_encode(rng, body, malformed, long_line=(edge == "long-chunk-size-line"))
         raw += enc
         exp_body, complete_state = good, ("complete" if ok else "malformed")
     else:
         raw += body
         exp_body, complete_state = body, "close-delimited"
     msg_end = len(raw)
-    if framing != "close" or nobody:
+    if (framing != "close" or nobody) and edge != "huge-content-length":
         if rng.random() < 0.12:
             raw += rng.choice([b"HTTP/1.1 200 OK\r\nContent-Length: 2\r\n\r\nhi", b"\r\n", b"garbage", b"0\r\n\r\n"])
     head_malformed = malformed in ("bad-status-code", "bad-version", "conflicting-cl", "non-numeric-cl", "header-no-colon")
     return {"method": method, "code": code, "framing": "none" if nobody else framing, "malformed": malformed, "raw": bytes(raw), "hdr_end": hdr_end,
             "msg_end": msg_end, "exp_body": exp_body, "complete_state": complete_state, "head_malformed": head_malformed, "interim": n_interim,
-            "framed_interim": n_framed_interim, "persistent": rng.random() < 0.3, "source": "generator"}
+            "framed_interim": n_framed_interim, "edge": edge, "persistent": rng.random() < 0.3, "source": "generator"}
 
 
 def gen_h11_response(rng):
@@ -418,6 +460,23 @@ def h11_client_view(desc):
 
 
 # -------------------------------------------------------------------------------------- harness
+class Boom(BaseException):
+    """An application error that is not an Exception (pattern: call-outs guarded by `except Exception` only)."""
+
+
+class Ex:
+    """One request/response exchange as the application sees it."""
+
+    def __init__(self, desc, policy, budget):
+        self.desc, self.policy, self.budget = desc, policy, budget
+        self.fired = []
+        self.body = None
+        self.resp = None
+        self.delivered = False
+        self.received = bytearray()
+        self.tx = None
+
+
 class Harness:
     def __init__(self):
         from twisted.internet import error
@@ -437,11 +496,13 @@ class Harness:
         self.pub.addObserver(self.log)
 
         class Body(Protocol):
-            def __init__(s):
+            def __init__(s, hooks=None):
                 s.data = bytearray()
                 s.lost = []
                 s.made = 0
                 s.after_lost = 0
+                s.calls = 0
+                s.hooks = hooks or {}
 
             def makeConnection(s, transport):
                 s.made += 1
@@ -451,11 +512,19 @@ class Harness:
                 if s.lost:
                     s.after_lost += 1
                 s.data += data
+                s.calls += 1
+                hk = s.hooks.get("data")
+                if hk is not None and s.calls == hk[0]:
+                    hk[1](s)
 
             def connectionLost(s, reason):
                 s.lost.append(reason)
+                hk = s.hooks.get("lost")
+                if hk is not None and len(s.lost) == 1:
+                    hk(s, reason)
 
         self.Body = Body
+        self._P = None
 
     def close(self):
         try:
@@ -463,102 +532,271 @@ class Harness:
         except ValueError:
             pass
 
-    def producer(self):
-        from twisted.internet.defer import succeed
-        from twisted.web.iweb import IBodyProducer
-        from zope.interface import implementer
+    def producer(self, kind="done", raise_in=None):
+        """A 5-byte body producer.  kind: how the Deferred returned by startProducing looks —
+        done (fired), unfired, called-waiting (.called is True but its chain waits on an unfired Deferred),
+        fired-paused (fired, then pause()d).  .release() lets the chain run."""
+        if self._P is None:
+            from twisted.internet.defer import Deferred, succeed
+            from twisted.web.iweb import IBodyProducer
+            from zope.interface import implementer
 
-        @implementer(IBodyProducer)
-        class P:
-            length = 5
+            @implementer(IBodyProducer)
+            class P:
+                length = 5
 
-            def startProducing(self, consumer):
-                consumer.write(b"hello")
-                return succeed(None)
+                def __init__(s, kind, raise_in):
+                    s.kind, s.raise_in = kind, raise_in
+                    s.stopped = 0
+                    s.released = False
 
-            def pauseProducing(self):
-                pass
+                def startProducing(s, consumer):
+                    consumer.write(b"hello")
+                    kind = s.kind
+                    if kind == "done":
+                        s._release = lambda: None
+                        return succeed(None)
+                    if kind == "unfired":
+                        d = Deferred()
+                        s._release = lambda: d.callback(None)
+                        return d
+                    if kind == "called-waiting":
+                        inner = Deferred()
+                        d = succeed(None)
+                        d.addCallback(lambda _: inner)
+                        s._release = lambda: inner.callback(None)
+                        return d
+                    d = succeed(None)  # fired-paused
+                    d.pause()
+                    s._release = d.unpause
+                    return d
 
-            def resumeProducing(self):
-                pass
+                def release(s):
+                    if not s.released:
+                        s.released = True
+                        s._release()
 
-            def stopProducing(self):
-                pass
+                def pauseProducing(s):
+                    pass
 
-        return P()
+                def resumeProducing(s):
+                    pass
 
-    def run(self, desc, segs, policy, budget, loss_kind):
+                def stopProducing(s):
+                    s.stopped += 1
+                    if s.raise_in == "stopProducing":
+                        raise RuntimeError("producer.stopProducing raises")
+
+            self._P = P
+        return self._P(kind, raise_in)
+
+    def run(self, desc, segs, policy, budget, loss_kind, scn=None):
+        """scn (all optional): tx=[kind, release, mid_at]; reentry=[where, action, at]; raises=[where, exc, at];
+        second={desc, segs, policy, where}."""
+        scn = scn or {}
         nc = self.nc
         del self.log.events[:]
         proto = nc.HTTP11ClientProtocol()
         t = self.SimTransport()
         proto.makeConnection(t)
-        req = nc.Request(desc["method"], b"/", self.Headers({b"host": [b"h"]}), self.producer() if desc["method"] == b"POST" else None, persistent=desc["persistent"])
-        fired = []
-        body = self.Body()
-        st = {"resp": None, "delivered": False}
         escaped = []
+        notes = {"abort_fired": 0, "aborts": 0, "second_started": False, "resumes": 0}
+        exs = []
+        want_resume = []
 
-        def deliver():
-            st["delivered"] = True
+        def make_hooks(ex):
+            hooks = {}
+            re_, ra = scn.get("reentry"), scn.get("raises")
+
+            def action(name):
+                def act(b, *a):
+                    if name == "loseConnection":
+                        b.transport.loseConnection()
+                    elif name == "stopProducing":
+                        b.transport.stopProducing()
+                    elif name == "pause-resume":
+                        b.transport.pauseProducing()
+                        want_resume.append(b)
+                    elif name == "abort":
+                        notes["aborts"] += 1
+                        proto.abort().addCallback(lambda _: notes.__setitem__("abort_fired", notes["abort_fired"] + 1))
+                    elif name == "resume":
+                        b.transport.resumeProducing()
+                return act
+
+            first = ex is exs[0]
+            if re_ is not None and first:
+                where, name, at = re_
+                if where == "body-data":
+                    hooks["data"] = (at, action(name))
+                elif where == "body-lost":
+                    hooks["lost"] = action(name)
+            if ra is not None and first:
+                where, exc, at = ra
+                cls = Boom if exc == "BaseException" else RuntimeError
+
+                def boom(b, *a):
+                    raise cls("application code raises in %s" % where)
+
+                if where == "body-data":
+                    hooks["data"] = (at, boom)
+                elif where == "body-lost":
+                    hooks["lost"] = boom
+            return hooks
+
+        def deliver(ex):
+            ex.delivered = True
             try:
-                st["resp"].deliverBody(body)
-            except Exception as e:
+                ex.resp.deliverBody(ex.body)
+            except BaseException as e:
                 escaped.append("deliverBody: %s: %s" % (type(e).__name__, e))
 
-        def on_resp(r):
-            fired.append(("response", r))
-            st["resp"] = r
-            if policy == "immediate":
-                deliver()
-            return None
+        def start(ex):
+            d = ex.desc
+            prod = None
+            method = d["method"]
+            tx = scn.get("tx") if not exs else None
+            if tx is not None:
+                method = b"POST" if method != b"HEAD" else method
+                ra = scn.get("raises")
+                prod = self.producer(tx[0], "stopProducing" if ra is not None and ra[0] == "stopProducing" else None)
+                ex.tx = prod
+            elif method == b"POST":
+                prod = self.producer()
+            exs.append(ex)
+            ex.body = self.Body(make_hooks(ex))
+            req = nc.Request(method, b"/", self.Headers({b"host": [b"h"]}), prod, persistent=d["persistent"])
 
-        def on_fail(f):
-            fired.append(("failure", f))
-            return None
+            def on_resp(r):
+                ex.fired.append(("response", r))
+                ex.resp = r
+                re_ = scn.get("reentry")
+                if re_ is not None and re_[0] == "response-cb" and ex is exs[0]:
+                    if re_[1] == "abort":
+                        notes["aborts"] += 1
+                        proto.abort().addCallback(lambda _: notes.__setitem__("abort_fired", notes["abort_fired"] + 1))
+                    elif re_[1] == "loseConnection":
+                        t.loseConnection()
+                if ex.policy == "immediate":
+                    deliver(ex)
+                return None
 
-        proto.request(req).addCallbacks(on_resp, on_fail)
-        received = bytearray()
-        for seg in segs:
-            if t.disconnecting:
-                break
-            if t.reading_paused:
-                if policy == "ignore-pause" and budget > 0:
-                    budget -= 1
-                else:
+            def on_fail(f):
+                ex.fired.append(("failure", f))
+                return None
+
+            proto.request(req).addCallbacks(on_resp, on_fail)
+            if tx is not None and tx[1] == "before":
+                prod.release()
+
+        def feed(ex, segs):
+            n = 0
+            for seg in segs:
+                if want_resume and t.reading_paused:
+                    b = want_resume.pop()
+                    notes["resumes"] += 1
+                    b.transport.resumeProducing()
+                if t.disconnecting:
                     break
-            try:
-                proto.dataReceived(seg)
-            except Exception as e:
-                escaped.append("dataReceived: %s: %s" % (type(e).__name__, e))
-            received += seg
-            if policy == "after-return" and st["resp"] is not None and not st["delivered"]:
-                deliver()
-        if policy == "ignore-pause" and st["resp"] is not None and not st["delivered"]:
-            deliver()
+                if t.reading_paused:
+                    if ex.policy == "ignore-pause" and ex.budget > 0:
+                        ex.budget -= 1
+                    else:
+                        break
+                if ex.tx is not None and scn["tx"][1] == "mid" and n == scn["tx"][2]:
+                    ex.tx.release()
+                re_ = scn.get("reentry")
+                if re_ is not None and re_[0] == "between" and n == re_[2] and ex is exs[0] and not notes["aborts"]:
+                    notes["aborts"] += 1
+                    proto.abort().addCallback(lambda _: notes.__setitem__("abort_fired", notes["abort_fired"] + 1))
+                    if t.disconnecting:
+                        break
+                try:
+                    proto.dataReceived(seg)
+                except BaseException as e:
+                    escaped.append("dataReceived: %s: %s" % (type(e).__name__, e))
+                ex.received += seg
+                n += 1
+                if ex.policy == "after-return" and ex.resp is not None and not ex.delivered:
+                    deliver(ex)
+            if ex.tx is not None and scn["tx"][1] == "mid":
+                ex.tx.release()
+            if ex.policy == "ignore-pause" and ex.resp is not None and not ex.delivered:
+                deliver(ex)
+
+        ex1 = Ex(desc, policy, budget)
+        sec = scn.get("second")
+        ex2 = None
+        if sec is not None and sec["where"] == "in-body-lost":
+            def start_second(b, reason):
+                if reason.check(nc.ResponseDone) and not notes["second_started"]:
+                    notes["second_started"] = True
+                    start(ex2)
+            ex2 = Ex(sec["desc"], sec["policy"], 2)
+            scn_hooks_second = start_second
+        start(ex1)
+        if sec is not None and sec["where"] == "in-body-lost":
+            ex1.body.hooks["lost"] = scn_hooks_second
+        feed(ex1, segs)
+        if sec is not None:
+            if sec["where"] == "after-return" and proto.state == "QUIESCENT":
+                ex2 = Ex(sec["desc"], sec["policy"], 2)
+                notes["second_started"] = True
+                start(ex2)
+            if notes["second_started"]:
+                feed(ex2, sec["segs"])
+            else:
+                ex2 = None
         reason = self.Failure(self.error.ConnectionDone("closed") if loss_kind == 0 else self.error.ConnectionLost("reset"))
         try:
             proto.connectionLost(reason)
-        except Exception as e:
+        except BaseException as e:
             escaped.append("connectionLost: %s: %s" % (type(e).__name__, e))
-        if policy == "after-loss" and st["resp"] is not None and not st["delivered"]:
-            deliver()
+        for ex in exs:
+            if ex.policy == "after-loss" and ex.resp is not None and not ex.delivered:
+                deliver(ex)
+        if ex1.tx is not None and scn["tx"][1] == "after-loss":
+            try:
+                ex1.tx.release()
+            except BaseException as e:
+                escaped.append("release: %s: %s" % (type(e).__name__, e))
+        if escaped or any(not ex.fired for ex in exs):
+            # anomaly: collect now, so that an "Unhandled error in Deferred" is logged within the run that caused it
+            import gc
+
+            del proto, t, reason
+            gc.collect()
         logged = self.log.failures()
-        return bytes(received), fired, body, st, escaped, logged
+        return {"ex1": ex1, "ex2": ex2, "escaped": escaped, "logged": logged, "notes": notes, "scn": scn}
 
 
-def check(ctx, h, desc, k, segs, policy, out):
-    received, fired, body, st, escaped, logged = out
+def check(ctx, h, ex, k, segs, out, which="first"):
+    """Judge one exchange.  Scenario families restrict the judgement to what the statement covers:
+    tx (request still being transmitted): exactly-once always; a response is judged fully, a failure's type is not;
+    raises (application code raises): exactly-once, connectionLost at most once, nothing after it."""
+    desc, policy = ex.desc, ex.policy
+    received, fired, body = bytes(ex.received), ex.fired, ex.body
+    scn = out["scn"]
+    escaped, logged = out["escaped"], out["logged"]
     nc = h.nc
     ref = ref_parse(received, desc["method"])
     ctx.count("runs")
     ctx.count("policy_" + policy)
+    tx = scn.get("tx") if which == "first" else None
+    tx_live = tx is not None and tx[1] != "before"
+    raises = scn.get("raises")
     wit = {"method": desc["method"], "persistent": desc["persistent"], "response": desc["raw"], "response_latin1": desc["raw"].decode("latin-1"),
-           "source": desc["source"], "framing": desc["framing"], "malformed": desc["malformed"],
+           "source": desc["source"], "framing": desc["framing"], "malformed": desc["malformed"], "exchange": which,
+           "scenario": {x: scn[x] for x in ("tx", "reentry", "raises") if scn.get(x) is not None},
            "lost_after_k": k, "segment_lengths": [len(s) for s in segs][:60], "policy": policy, "bytes_delivered_to_protocol": len(received),
            "reference": {x: ref[x] for x in ("head", "code", "interim", "framing", "body_state")}, "reference_body_length": len(ref["body"]),
            "deferred": [(kind, type(v.value).__name__ if kind == "failure" else "code %s" % v.code) for kind, v in fired],
            "body_protocol": {"made": body.made, "bytes": len(body.data), "lost": [type(r.value).__name__ for r in body.lost], "data_after_lost": body.after_lost}}
+    if scn.get("second") is not None:
+        s2 = scn["second"]
+        wit["second"] = {"response_latin1": s2["desc"]["raw"].decode("latin-1"), "method": s2["desc"]["method"], "persistent": s2["desc"]["persistent"],
+                         "k2": s2["k2"], "segment_lengths": [len(x) for x in s2["segs"]][:60], "policy": s2["policy"], "where": s2["where"],
+                         "started": out["notes"]["second_started"]}
 
     def bad(key, what, **kw):
         w = dict(wit)
@@ -566,6 +804,24 @@ def check(ctx, h, desc, k, segs, policy, out):
         ctx.violation(key, what, w)
         return False
 
+    if raises is not None:
+        # the application raised on purpose: its own exception may be logged or (BaseException) escape
+        escaped = [e for e in escaped if "application code raises" not in e and "producer.stopProducing raises" not in e]
+        logged = [l for l in logged if "application code raises" not in l[1] and "producer.stopProducing raises" not in l[1]]
+        if out["escaped"] != escaped:
+            ctx.count("app_exception_escaped_unjudged")
+    stranded = any("'NoneType' object has no attribute 'errback'" in e for e in escaped) or \
+        any(l[0] == "AttributeError" and "'NoneType' object has no attribute 'chainDeferred'" in l[1] for l in logged)
+    if tx_live and not fired and stranded:
+        return bad("transmitting-parse-error-strands-request-deferred",
+                   "an unparseable response arrives while the request body is still being produced: the parser is dropped without "
+                   "connecting its Deferred to the request Deferred, which then never fires (connectionLost raises AttributeError)",
+                   escaped=escaped[:3], logged=logged[:3])
+    if (out["notes"]["aborts"] and ref["framing"] == "close" and ex.delivered and not body.lost
+            and any(l[0] == "RuntimeError" and "finishResponse method in state ABORTING" in l[1] for l in logged)):
+        return bad("abort-close-delimited-body-never-finished",
+                   "abort() while a close-delimited body is being received: the end-of-body notification has no handler in state "
+                   "ABORTING, the RuntimeError is logged and the body protocol never gets connectionLost", logged=logged[:2])
     if escaped:
         return bad("exception-escaped", "an exception escaped the protocol", escaped=escaped[:3])
     if logged:
@@ -576,9 +832,29 @@ def check(ctx, h, desc, k, segs, policy, out):
         return bad("deferred-fired-twice", "the request Deferred's callbacks ran more than once")
     kind, val = fired[0]
     ctx.count("interim_skipped", ref["interim"])
+    if raises is not None:
+        ctx.count("raise_runs")
+        if len(body.lost) > 1:
+            return bad("body-connectionlost-count", "body protocol connectionLost called %d times" % len(body.lost))
+        if body.after_lost:
+            return bad("body-data-after-connectionlost", "dataReceived on the body protocol after its connectionLost")
+        if kind == "response" and ref["head"] != "complete":
+            return bad("response-before-headers-complete", "the Deferred fired with a response although the final header block is %s" % ref["head"])
+        return True
+    if tx_live:
+        ctx.count("tx_runs")
+        ctx.count("tx_" + tx[0])
+        if kind == "failure":
+            ctx.seen("tx_failure_kinds", type(val.value).__name__)
+            ctx.count("tx_failures_unjudged")
+            return True
+    if which == "second" and not ref["any"] and kind == "failure" and val.check(nc.RequestNotSent):
+        ctx.count("second_request_not_sent")  # documented refusal of request(): a failure, which is all the statement asks
+        return True
     if not ref["any"]:
         if kind != "failure" or not val.check(nc.ResponseNeverReceived):
-            return bad("never-received-mismatch", "no byte was received but the Deferred did not fail with ResponseNeverReceived")
+            return bad("never-received-mismatch", "no byte was received but the Deferred did not fail with ResponseNeverReceived",
+                       failure=type(val.value).__name__ if kind == "failure" else None)
         ctx.count("deferred_never_received")
         return True
     if ref["head"] != "complete":
@@ -599,7 +875,7 @@ def check(ctx, h, desc, k, segs, policy, out):
     ctx.count("deferred_response")
     if ref["framing"] == "none":
         ctx.count("head_or_nobody_runs")
-    if not st["delivered"]:
+    if not ex.delivered:
         ctx.count("no_body_protocol_runs")
         return True
     if body.made != 1:
@@ -631,11 +907,20 @@ def check(ctx, h, desc, k, segs, policy, out):
                        "the body is %s but connectionLost got %s" % (state, type(reason.value).__name__))
         ctx.seen("truncated_reason_types", type(reason.value).__name__)
         ctx.count("body_lost_truncated")
+    if out["notes"]["aborts"] and out["notes"]["abort_fired"] != out["notes"]["aborts"]:
+        ctx.count("abort_deferred_not_fired_unjudged")
     return True
 
 
 # ----------------------------------------------------------------------------------- workload
 POLICIES = ["immediate"] * 7 + ["after-return"] * 4 + ["ignore-pause"] * 3 + ["after-loss"] * 3 + ["never"] * 3
+DELIVERING = ["immediate", "immediate", "after-return", "ignore-pause"]
+TX_KINDS = ["unfired", "called-waiting", "fired-paused"]
+TX_RELEASE = ["before", "mid", "mid", "after-loss", "never"]
+REENTRY = [("between", "abort"), ("between", "abort"), ("body-data", "loseConnection"), ("body-data", "stopProducing"), ("body-data", "pause-resume"), ("body-data", "abort"),
+           ("body-data", "resume"), ("body-lost", "loseConnection"), ("body-lost", "abort"), ("body-lost", "stopProducing"),
+           ("response-cb", "abort"), ("response-cb", "loseConnection")]
+RAISES = [("body-data", "Exception"), ("body-data", "BaseException"), ("body-lost", "Exception"), ("body-lost", "BaseException"), ("stopProducing", "Exception")]
 
 
 def split_random(rng, data):
@@ -656,7 +941,7 @@ def selfcheck(ctx, desc):
     if not ok:
         ctx.inconclusive("harness: generator description and reference reader disagree on %r (malformed=%s): %r" % (full[:200], desc["malformed"], {x: ref[x] for x in ("head", "code", "body_state", "interim")}))
         return False
-    if desc["malformed"] is None:
+    if desc["malformed"] is None and len(full) < 20000:
         v = h11_client_view(desc)
         if v is None:
             ctx.count("h11_refused")
@@ -674,10 +959,34 @@ def positions(rng, desc):
     n = len(desc["raw"])
     if n <= 400:
         return list(range(n + 1))
-    ks = set(range(min(n, desc["hdr_end"] + 40) + 1))
+    ks = set(range(min(n, desc["hdr_end"] + 40, 500) + 1))
+    ks.update(range(max(0, desc["hdr_end"] - 20), min(n, desc["hdr_end"] + 40) + 1))
     ks.update(range(max(0, desc["msg_end"] - 12), n + 1))
     ks.update(rng.randrange(n + 1) for _ in range(60))
     return sorted(ks)
+
+
+def one(ctx, h, desc, rng, k, segs, policy, scn=None, family="base"):
+    out = h.run(desc, segs, policy, rng.randint(1, 4), rng.randrange(2), scn)
+    ctx.evaluated()
+    if k > 0:
+        sig = None if not scn else repr({x: (v if x != "second" else (v["desc"]["raw"], v["k2"], v["where"], v["policy"])) for x, v in scn.items()})
+        ctx.distinct((desc["raw"], k, tuple(len(s) for s in segs), policy, desc["method"], desc["persistent"], sig))
+    ctx.count("family_" + family)
+    check(ctx, h, out["ex1"], k, segs, out)
+    if out["ex2"] is not None:
+        ctx.count("second_exchanges_checked")
+        s2 = scn["second"]
+        check(ctx, h, out["ex2"], s2["k2"], s2["segs"], out, which="second")
+    return out
+
+
+def variants_for(rng, prefix):
+    k = len(prefix)
+    v = [[prefix] if prefix else []]
+    if k > 1:
+        v.append(split_random(rng, prefix))
+    return v
 
 
 def run_response(ctx, h, desc, rng, sample=False):
@@ -686,35 +995,73 @@ def run_response(ctx, h, desc, rng, sample=False):
     ctx.count("responses")
     if desc.get("framed_interim"):
         ctx.count("responses_with_framing_headers_on_interim")
+    if desc.get("edge"):
+        ctx.count("edge_responses")
+        ctx.seen("edges", desc["edge"])
     ctx.count("responses_" + desc["source"])
     ctx.seen("framings", desc["framing"] + ("/" + desc["malformed"] if desc["malformed"] else ""))
     raw = desc["raw"]
+    n = len(raw)
     plan = [(k, None) for k in positions(rng, desc)]
     # the loss-free ends (whole message, whole message + trailing bytes) under every delivery policy
-    for k in sorted({desc["msg_end"], len(raw)}):
+    for k in sorted({desc["msg_end"], n}):
         plan += [(k, p) for p in ("immediate", "after-return", "ignore-pause", "after-loss", "never")]
     for k, forced in plan:
         if forced is None:
             ctx.count("truncation_points")
         prefix = raw[:k]
-        variants = [[prefix] if prefix else []]
-        if k > 1:
-            variants.append(split_random(rng, prefix))
+        variants = variants_for(rng, prefix)
         if 1 < k <= 120 and rng.random() < 0.15:
             variants.append([prefix[i:i + 1] for i in range(k)])
         for segs in variants:
             policy = forced or rng.choice(POLICIES)
-            budget = rng.randint(1, 4)
-            out = h.run(desc, segs, policy, budget, rng.randrange(2))
-            ctx.evaluated()
-            if k > 0:
-                ctx.distinct((raw, k, tuple(len(s) for s in segs), policy, desc["method"], desc["persistent"]))
-            ok = check(ctx, h, desc, k, segs, policy, out)
-            if sample and k == len(raw) and segs is variants[0]:
-                received, fired, body, st, escaped, logged = out
+            out = one(ctx, h, desc, rng, k, segs, policy)
+            if sample and k == n and segs is variants[0]:
+                ex = out["ex1"]
                 ctx.sample({"method": desc["method"], "response": raw[:300], "lost_after_k": k, "policy": policy,
-                            "deferred": [(kd, type(v.value).__name__ if kd == "failure" else "code %s" % v.code) for kd, v in fired],
-                            "body_bytes": len(body.data), "body_lost": [type(r.value).__name__ for r in body.lost]})
+                            "deferred": [(kd, type(v.value).__name__ if kd == "failure" else "code %s" % v.code) for kd, v in ex.fired],
+                            "body_bytes": len(ex.body.data), "body_lost": [type(r.value).__name__ for r in ex.body.lost]})
+    # ---- every two-piece split of the complete message (each boundary byte alone on one side)
+    if n <= 200:
+        for cut in range(1, n):
+            one(ctx, h, desc, rng, n, [raw[:cut], raw[cut:]], rng.choice(DELIVERING), family="two-split")
+    # ---- the request is still being transmitted while the response arrives (body producer's Deferred pending,
+    #      .called-but-waiting, or fired-and-paused), released before / in the middle / after the loss / never
+    if desc["method"] != b"HEAD":
+        for _ in range(14):
+            k = rng.choice([n, desc["msg_end"], desc["hdr_end"], rng.randrange(n + 1), rng.randrange(n + 1)])
+            segs = rng.choice(variants_for(rng, raw[:k]))
+            tx = [rng.choice(TX_KINDS), rng.choice(TX_RELEASE), rng.randint(0, max(0, len(segs)))]
+            one(ctx, h, desc, rng, k, segs, rng.choice(POLICIES), {"tx": tx}, family="tx")
+    # ---- re-entrant calls by the application from inside the call-outs
+    for _ in range(12):
+        k = rng.choice([n, n, desc["msg_end"], rng.randrange(desc["hdr_end"], n + 1)])
+        segs = rng.choice(variants_for(rng, raw[:k]))
+        where, action = rng.choice(REENTRY)
+        one(ctx, h, desc, rng, k, segs, rng.choice(DELIVERING), {"reentry": [where, action, rng.randint(1, 3)]}, family="reentry")
+        ctx.count("reentry_" + action)
+    # ---- application call-outs that raise (Exception and BaseException-only)
+    for _ in range(6):
+        k = rng.choice([n, rng.randrange(desc["hdr_end"], n + 1)])
+        segs = rng.choice(variants_for(rng, raw[:k]))
+        where, exc = rng.choice(RAISES)
+        scn = {"raises": [where, exc, rng.randint(1, 2)]}
+        if where == "stopProducing":
+            if desc["method"] == b"HEAD":
+                continue
+            scn["tx"] = [rng.choice(TX_KINDS), rng.choice(["never", "after-loss"]), 0]
+        one(ctx, h, desc, rng, k, segs, rng.choice(DELIVERING), scn, family="raises")
+    # ---- a second request on the same protocol after this response (state left over from the first exchange)
+    if desc["malformed"] is None and desc["framing"] != "close" and n == desc["msg_end"] and not desc.get("edge"):
+        for _ in range(10):
+            d2 = gen_response(rng)
+            if len(d2["raw"]) > 3000:
+                continue
+            d1 = dict(desc, persistent=rng.random() < 0.8)
+            k2 = rng.choice([len(d2["raw"]), d2["msg_end"], 0, rng.randrange(len(d2["raw"]) + 1), rng.randrange(len(d2["raw"]) + 1)])
+            segs2 = rng.choice(variants_for(rng, d2["raw"][:k2]))
+            scn = {"second": {"desc": d2, "segs": segs2, "k2": k2, "policy": rng.choice(POLICIES), "where": rng.choice(["after-return", "in-body-lost"])}}
+            one(ctx, h, d1, rng, n, rng.choice(variants_for(rng, raw)), rng.choice(["immediate", "after-return"]), scn, family="pair")
 
 
 def run(ctx):
@@ -734,7 +1081,7 @@ def run(ctx):
     assert ref_parse(b"HTTP/1.1 200 OK\r\nX: y\r\n", b"GET")["head"] == "incomplete"
     h = Harness()
     try:
-        for i in ctx.cases(400, 30000):
+        for i in ctx.cases(400, 20000):
             rng = ctx.case_rng(i)
             desc = gen_h11_response(rng) if rng.random() < 0.25 else gen_response(rng)
             run_response(ctx, h, desc, rng, sample=i < 2 * ctx.nshards)
@@ -742,25 +1089,44 @@ def run(ctx):
         h.close()
 
 
+def _segs(data, lengths):
+    out, pos = [], 0
+    for n in lengths:
+        out.append(data[pos:pos + n])
+        pos += n
+    if pos < len(data):
+        out.append(data[pos:])
+    return out
+
+
 def replay(ctx, w):
     x = w["witness"]
+
+    def unb(m):
+        return (m[2:] if m.startswith("b:") else m).encode()
+
     raw = x["response_latin1"].encode("latin-1")
-    m = x["method"]
-    method = (m[2:] if m.startswith("b:") else m).encode()
-    desc = {"method": method, "persistent": x["persistent"], "raw": raw, "source": x["source"], "framing": x["framing"], "malformed": x["malformed"]}
+    desc = {"method": unb(x["method"]), "persistent": x["persistent"], "raw": raw, "source": x["source"], "framing": x["framing"], "malformed": x["malformed"]}
+    scn = dict(x.get("scenario") or {})
     k = x["lost_after_k"]
-    prefix = raw[:k]
-    segs, pos = [], 0
-    for n in x["segment_lengths"]:
-        segs.append(prefix[pos:pos + n])
-        pos += n
-    if pos < k:
-        segs.append(prefix[pos:])
+    segs = _segs(raw[:k], x["segment_lengths"])
+    policy = x["policy"]
+    if x.get("second"):
+        s2 = x["second"]
+        raw2 = s2["response_latin1"].encode("latin-1")
+        d2 = {"method": unb(s2["method"]), "persistent": s2["persistent"], "raw": raw2, "source": "replay", "framing": "?", "malformed": None}
+        scn["second"] = {"desc": d2, "segs": _segs(raw2[:s2["k2"]], s2["segment_lengths"]), "k2": s2["k2"], "policy": s2["policy"], "where": s2["where"]}
+        if x.get("exchange") == "second":
+            # the witness describes the second exchange; the first one is not recorded in full: replay is approximate
+            ctx.inconclusive("replay of a second-exchange witness needs the first response; re-run with VERIF_SEED=%s" % w.get("seed"))
+            return
     h = Harness()
     try:
-        out = h.run(desc, segs, x["policy"], 4, 0)
+        out = h.run(desc, segs, policy, 4, 0, scn or None)
         ctx.evaluated()
         ctx.distinct((raw, k))
-        check(ctx, h, desc, k, segs, x["policy"], out)
+        check(ctx, h, out["ex1"], k, segs, out)
+        if out["ex2"] is not None:
+            check(ctx, h, out["ex2"], scn["second"]["k2"], scn["second"]["segs"], out, which="second")
     finally:
         h.close()
